@@ -114,6 +114,54 @@ def h_key_sufficiency(opname):
     return h
 
 
+# values that compare (and hash) equal in Python although they are different values for an encoder: any memoisation keyed on
+# the raw value conflates them
+EQUAL_PAIRS = [(0.0, -0.0), (-0.0, 0.0), (1, True), (True, 1), (1, 1.0), (1.0, 1), (0, False), (False, 0), (0, -0.0), (-0.0, 0), (0.0, False), (2, 2.0)]
+
+
+def _value_routes():
+    import bitstring
+    B = bitstring
+    return {
+        "pack('float:32', v)": lambda v: B.pack('float:32', v), "pack('floatle:64', v)": lambda v: B.pack('floatle:64', v), "pack('float:16', v)": lambda v: B.pack('float:16', v),
+        "pack('bfloat', v)": lambda v: B.pack('bfloat', v), "pack('uint:8', v)": lambda v: B.pack('uint:8', v), "pack('int:8', v)": lambda v: B.pack('int:8', v),
+        "pack('bool', v)": lambda v: B.pack('bool', v), "pack('e4m3mxfp', v)": lambda v: B.pack('e4m3mxfp', v), "pack('p3binary', v)": lambda v: B.pack('p3binary', v),
+        "pack('ue', v)": lambda v: B.pack('ue', v), "pack('uint:4, float:32', 3, v)": lambda v: B.pack('uint:4, float:32', 3, v), "pack('float:n', v, n=32)": lambda v: B.pack('float:n', v, n=32),
+        "Bits(float=v, length=32)": lambda v: B.Bits(float=v, length=32), "Bits(uint=v, length=8)": lambda v: B.Bits(uint=v, length=8), "Bits(bool=v)": lambda v: B.Bits(bool=v),
+        "Dtype('float32').build(v)": lambda v: B.Dtype('float32').build(v), "Dtype('bfloat').build(v)": lambda v: B.Dtype('bfloat').build(v),
+        "Array('float32', [v])": lambda v: B.Array('float32', [v]), "Array('float16', [v]).append": lambda v: _arr_append(B, v),
+        "BitArray.float = v": lambda v: _set_float(B, v), "Bits('float:32=' + str(v))": lambda v: B.Bits('float:32=' + str(v)), "Bits([v])": lambda v: B.Bits([v]),
+    }
+
+
+def _arr_append(B, v):
+    a = B.Array('float16')
+    a.append(v)
+    return a
+
+
+def _set_float(B, v):
+    a = B.BitArray(32)
+    a.float = v
+    return a
+
+
+def h_equal_keys(route):
+    """history independence across values that Python treats as equal dictionary keys: building w first must not change what v gives"""
+    def h(K):
+        env.clear_caches()
+        f = _value_routes()[route]
+        i = K.choice('pair', list(range(len(EQUAL_PAIRS))))
+        w, v = EQUAL_PAIRS[i]
+        _set_opts(K, 's')
+        call(lambda: f(w))
+        warm = _outcome(K, call(lambda: f(v)))
+        env.clear_caches()
+        cold = _outcome(K, call(lambda: f(v)))
+        return K.check(warm == cold, 'the result for a value depends on an equal-comparing but different value having been built earlier', route=route, earlier=repr(w), value=repr(v), warm=warm, cold=cold)
+    return h
+
+
 def _shrink_caches():
     """re-wrap every lru cache of the package with maxsize=2 (module attributes and from-imports)"""
     env.live_caches()
@@ -191,6 +239,10 @@ def conditions(tier):
     for nm in names:
         add(f'C09.key-sufficiency[{nm}]', h_key_sufficiency(nm), 'all pairs of option settings (lsb0, bytealigned, mxfp_overflow) before/after; warm vs cold; options restored', op=nm)
         add(f'C09.hit-equals-miss[{nm}]', h_hit_equals_miss(nm), 'all option settings; second call vs first; mutation of the first result', op=nm)
+    for rt in ["pack('float:32', v)", "pack('floatle:64', v)", "pack('float:16', v)", "pack('bfloat', v)", "pack('uint:8', v)", "pack('int:8', v)", "pack('bool', v)", "pack('e4m3mxfp', v)",
+               "pack('p3binary', v)", "pack('ue', v)", "pack('uint:4, float:32', 3, v)", "pack('float:n', v, n=32)", "Bits(float=v, length=32)", "Bits(uint=v, length=8)", "Bits(bool=v)",
+               "Dtype('float32').build(v)", "Dtype('bfloat').build(v)", "Array('float32', [v])", "Array('float16', [v]).append", "BitArray.float = v", "Bits('float:32=' + str(v))", "Bits([v])"]:
+        add(f'C09.equal-keys[{rt}]', h_equal_keys(rt), f'{len(EQUAL_PAIRS)} ordered pairs of equal-comparing values (0.0/-0.0, 1/True/1.0, 0/False/-0.0, 2/2.0) x all option settings; warm vs cold', route=rt)
     triples = [("Bits('e4m3mxfp=1000')", "Bits('ue=3')", "Bits('0b0110')"), ("pack('uint:8, e4m3mxfp', 1, 1000.0)", "Dtype('uint8')", "Bits('uint:8=200')"),
                ("Bits('0x5a, 0b1')", "BitArray('e4m3mxfp=1000')", "Bits('e5m2mxfp=100000')")]
     if not q:
